@@ -81,7 +81,7 @@ def _rename(spec: dict, rng: random.Random) -> dict:
     if spec.get("ghost"):
         g = dict(spec["ghost"])
         g["name"] = o2 + "0"
-        for f in ("tries", "subs"):
+        for f in ("tries", "unsubs", "subs"):
             g[f] = [[r, smap[sg], v] for (r, sg, v) in g[f]]
         g["burst"] = [smap[x] for x in g["burst"]]
         sp["ghost"] = g
@@ -207,7 +207,11 @@ def gen_spec(rng: random.Random, big: bool) -> dict:
         if rr:
             tries = [[r, sg, via()] for r in rr for sg in SIGS if rng.random() < 0.6]
             spec["ghost"] = {"name": "pm100", "tries": tries,
-                             "subs": [[r, sg, via()] for (r, sg, _v) in tries if rng.random() < 0.6],
+                             # unsubscribes of the object that does not exist (never subscribed: no-ops that leave nothing)
+                             "unsubs": [[r, sg, via()] for r in rr for sg in SIGS if rng.random() < 0.25],
+                             # retry by the same receivers and by other receivers of the same contexts
+                             "subs": [[r, sg, via()] for r in rr for sg in SIGS
+                                      if rng.random() < (0.6 if any(t[0] == r and t[1] == sg for t in tries) else 0.3)],
                              "burst": [rng.choice(SIGS) for _ in range(rng.randint(2, 5))]}
     return _rename(spec, rng)
 
@@ -483,6 +487,14 @@ def run_c07(seed, spec: dict, change_points=None, trace_funcs=()):
                     except BaseException as e:  # noqa
                         if type(e).__name__ != "QMI_SignalSubscriptionException":
                             errors.append(("refused-subscribe", r, "P", gh["name"], sg, type(e).__name__))
+                for (r, sg, v) in gh.get("unsubs", []):
+                    try:
+                        call("unsub", r, "P", gh["name"], sg, 3 if v == 2 else v)
+                    except D.SchedAbort:
+                        raise
+                    except BaseException as e:  # noqa
+                        errors.append(("unsub-of-unknown", r, "P", gh["name"], sg, type(e).__name__))
+                PC.drain(w)
                 try:
                     gp = ctxs["P"].make_rpc_object(gh["name"], Pub)
                     gp.rpc_nonblocking.burst(items(gh["burst"])).wait()
@@ -933,8 +945,15 @@ class C07(Prop):
             seed = ctx.rng.randrange(1 << 30)
             cases.append((seed, gen_spec(ctx.rng, not ctx.quick), None))
         step = 50
+        from harness.core import known_match
         for i in range(0, len(cases), step):
             self._run_batch(ctx, cases[i:i + step], res, "random")
+            # a tree that already shows a failure not listed as known, or three broken trace comparisons, needs no
+            # further random scenarios (cost on a defective tree); an unchanged tree always runs all of them
+            if [f for f in res.failures if known_match("C07", f.signature) is None] or \
+                    sum(1 for b in res.broken if b.stage == "correspondence") >= 3:
+                res.extra["random_scenarios_cut_short_after"] = i + step
+                break
         self._limits(ctx, res, ctx.scale(6, 40))
         return res
 
